@@ -2,7 +2,7 @@
    The tree core (optree with none_is_leaf) is modelled; how decorators, annotations and
    defaults are turned into these trees is Python evaluation and is covered by the
    correspondence programs only (partial). *)
-From Verif Require Import Base.Prelude Model.Tree Proofs.TreeProofs.
+From Verif Require Import Base.Prelude Model.Tree Proofs.TreeProofs Proofs.TreeKwargs.
 
 (* every keyword argument is the declared tree with each node replaced by its loaded value:
    same containers, same positions, same order *)
@@ -31,6 +31,24 @@ Theorem C07_prefix_iff_flatten : forall (A B : Type) (s : tree A) (t : tree B),
   is_prefix s t = true <-> exists vs, flatten_up_to s t = Some vs.
 Proof. intros A B. exact (@prefix_iff_flatten A B). Qed.
 
+(* "exactly": the arguments carry the declared names, in order, nothing more; every argument is
+   the loaded image of the declaration of its name; position by position *)
+Theorem C07_kwargs_exactly_declared : forall (Nd V : Type) (load : Nd -> V) decls,
+  map fst (load_kwargs load decls) = map fst decls /\ length (load_kwargs load decls) = length decls.
+Proof. intros Nd V. exact (@load_kwargs_names Nd V). Qed.
+
+Theorem C07_kwargs_only_declared : forall (Nd V : Type) (load : Nd -> V) decls name v,
+  In (name, v) (load_kwargs load decls) -> exists t, In (name, t) decls /\ v = tmap load t.
+Proof. intros Nd V. exact (@load_kwargs_only_declared Nd V). Qed.
+
+Theorem C07_kwargs_nth : forall (Nd V : Type) (load : Nd -> V) decls i,
+  nth_error (load_kwargs load decls) i =
+  option_map (fun p => (fst p, tmap load (snd p))) (nth_error decls i).
+Proof. intros Nd V. exact (@load_kwargs_nth Nd V). Qed.
+
+Print Assumptions C07_kwargs_exactly_declared.
+Print Assumptions C07_kwargs_only_declared.
+Print Assumptions C07_kwargs_nth.
 Print Assumptions C07_kwargs_structure_preserved.
 Print Assumptions C07_kwargs_positionwise.
 Print Assumptions C07_return_positionwise.
